@@ -64,12 +64,16 @@ def _strategy(draw):
     n = draw(st.integers(2, 4))
     for i in range(n):
         cls = draw(st.sampled_from(["simple", "simple", "contract", "storage", "transport", "transport", "chp", "plant",
-                                    "scaled", "structured", "orderbook", "multi", "coarse"]))
+                                    "scaled", "structured", "orderbook", "multi", "coarse", "coarse"]))
         a = gen.draw_any(draw, cx, cls, "a%d" % i)
         a["naive"] = True
         if cls == "coarse":
             a["freq"] = tl.freq_multiple(freq, 2)     # equals the frequency of some grids, coarser than others
             a["start"] = a["end"] = None
+            if draw(st.booleans()):
+                # an explicit window of whole coarse steps: the same dates on every grid
+                s0 = draw(st.sampled_from([0, 2, 3, 3])) if T0 >= 5 else 0      # (3: inside every rolled grid as well)
+                a["start"], a["end"] = s0, s0 + 2 * draw(st.integers(1, max(1, (T0 - s0) // 2)))
             a["wacc"] = draw(st.sampled_from([0.0, 0.05, 0.4]))     # several coarse assets with the same window, own discounting
         if a["type"] == "structured" and draw(st.booleans()):
             a["start"], a["end"] = draw(st.integers(0, 1)), draw(st.integers(T0 - 2, T0))   # both ends clip the inner assets
@@ -117,7 +121,9 @@ def _strategy(draw):
                                    "setup_inner", "run_split", "run_mono", "setup_preset", "setup_preset"]))
         steps.append({"op": op, "k": draw(st.integers(0, n - 1)), "g": draw(st.integers(0, ngr - 1)),
                       "frame": draw(st.booleans()), "interval": draw(st.sampled_from(["2h", "3h", "d"]))})
-    return {"grid": g0, "grids": grids, "assets": assets, "prices_per_grid": prices, "steps": steps}
+    return {"grid": g0, "grids": grids, "assets": assets, "prices_per_grid": prices, "steps": steps,
+            # 1 history in 16: the last set-up is repeated in a pristine interpreter (state kept at module / class level)
+            "pristine": draw(st.integers(0, 15)) == 0}
 
 
 def strategy(tier):
@@ -203,6 +209,46 @@ def compare(out, live, fresh, what):
             return
 
 
+def pristine_compare(out, spec, st_, live):
+    """the last set-up of the history against the same call in an interpreter that has built nothing else"""
+    import json, os, subprocess, sys
+    import scipy.sparse as sp
+    req = json.dumps({"spec": {k_: v_ for k_, v_ in spec.items() if k_ != "steps"}, "step": st_}, default=core._json_default)
+    try:
+        r = subprocess.run([sys.executable, "-W", "ignore", "-m", "eaoverif.pristine"], input=req, capture_output=True, text=True,
+                           timeout=300, env=dict(os.environ, PYTHONHASHSEED="0"))
+        ans = json.loads(r.stdout)
+    except Exception as e:
+        raise core.HarnessError("pristine interpreter failed: %r" % (e,))
+    out.label("pristine_compared")
+    what = "last set-up of the history (%s, grid %d) against a pristine interpreter" % (st_["op"], st_["g"])
+    if "error" in ans or is_err(live):
+        if ("error" in ans) != bool(is_err(live)):
+            out.fail("%s: %s in this process, %s in a pristine one" % (what, "raises " + live.short() if is_err(live) else "works",
+                                                                     "raises " + ans["error"] if "error" in ans else "works"))
+        return
+    ops_l = live.ops if hasattr(live, "ops") else [live]
+    if len(ops_l) != len(ans["ops"]):
+        return out.fail("%s: %d interval problems here, %d there" % (what, len(ops_l), len(ans["ops"])))
+    for a, b in zip(ops_l, ans["ops"]):
+        for nm in ("c", "l", "u"):
+            x, y = np.asarray(getattr(a, nm), float), np.asarray(b[nm], float)
+            if x.shape != y.shape or not np.allclose(x, y, rtol=1e-9, atol=1e-12):
+                return out.fail("%s: %s differs" % (what, nm))
+        if (a.cType or "") != b["cType"]:
+            return out.fail("%s: row types differ" % what)
+        if len(b["cType"]):
+            if not np.allclose(np.asarray(a.b, float), np.asarray(b["b"], float), rtol=1e-9, atol=1e-12):
+                return out.fail("%s: right-hand sides differ" % what)
+            rows, cols, data, shape = b["A"]
+            B = sp.csr_matrix((data, (rows, cols)), shape=tuple(shape))
+            if sp.csr_matrix(a.A).shape != B.shape or abs(sp.csr_matrix(a.A) - B).max() > 1e-9:
+                return out.fail("%s: restriction matrix differs" % what)
+        ra = [list(r_) for r_ in (c07.mapping_records(a.mapping) if len(a.mapping) else [])]
+        if json.loads(json.dumps(ra)) != b["mapping"]:
+            return out.fail("%s: mapping differs" % what)
+
+
 def check(spec):
     out = Outcome()
     live_assets = build_assets(spec)
@@ -211,6 +257,7 @@ def check(spec):
     live_prices = {}
     pristine = {}
     fixdict = {}
+    last_setup = None    # (step, live result) of the last plain set-up, for the pristine-interpreter comparison
     last = None          # (op, portfolio, prices, grid index)
     touched = {}         # asset index -> set of (tz, start, T) it was set up with
     reloaded = set()
@@ -257,6 +304,8 @@ def check(spec):
             fresh = eao_call(fa.setup_optim_problem, price_container(spec, gi, False), build.build_grid(spec["grids"][gi]))
             compare(out, live, fresh, "%s (asset %s, grid %d)" % (what, spec["assets"][k]["name"], gi))
             touch([k], gi)
+            if k not in reloaded:
+                last_setup = (dict(st_, k=k, use_frame=False), live)
             if is_err(fresh):
                 precondition_errors += 1
         elif op == "setup_preset":
@@ -326,6 +375,8 @@ def check(spec):
                 precondition_errors += 1
             if op in ("setup_portfolio", "setup_split") and not is_err(live):
                 last = (live, p, gi, None, st_["interval"] if op == "setup_split" else None)
+            if op in ("setup_portfolio", "setup_split") and not reloaded:
+                last_setup = (dict(st_, k=k, use_frame=use_frame), live)
         elif op == "optimize" and last is not None:
             r = eao_call(last[0].optimize)
             if not is_err(r) and not isinstance(r, str):
@@ -406,6 +457,8 @@ def check(spec):
                 break
         if out.violations:
             return out
+    if spec.get("pristine") and last_setup is not None and not out.violations:
+        pristine_compare(out, spec, last_setup[0], last_setup[1])
     out.label("precondition_errors" if precondition_errors else None, "history:interesting" if interesting else "history:plain")
     out.nontrivial = interesting and precondition_errors == 0
     return out
